@@ -19,9 +19,11 @@
 //!   SSI <staked>           init_staked_settings      staked = oracle awi awm dep lim age tier
 //!   SSE <stakedopt>        edit_staked_settings      7 options in field order
 //!   PR                     propagate_staked_settings to bank 2 (no remaining accounts)
+//!   MIG i                  migrate_curve (permissionless)
+//!   HP k (i liab shares price)xk   health probe: fixture balances + Fixed prices, the real lending_account_pulse_health; store restored
 //!   KILL i                 fixture debt + the real lending_pool_handle_bankruptcy: bank i ends KilledByBankruptcy
 //! out: G ci cm B2 <bank dump> | step | step ...
-//!   step = OK B<i> <bank dump> | OK G ci cm | OK S <staked dump> | E<code> | PANIC | PE:<text> | ABSENT | EXISTS
+//!   step = OK B<i> <bank dump> | OK G ci cm | OK S <staked dump> | H ai li am lm | E<code> | PANIC | PE:<text> | ABSENT | EXISTS
 use crate::sim::fixtures::*;
 use crate::sim::ixs;
 use crate::sim::runtime::{ExecError, Ix, World};
@@ -185,6 +187,60 @@ fn kill_bank(e: &mut Env, i: usize) -> Result<(), ExecError> {
     let r = e.exec(ix, &[admin]);
     e.w.update::<Bank>(&bank, |b| b.config.asset_tag = asset_tag_saved);
     r
+}
+
+/// Observation only (the store is restored afterwards): give every probed bank a Fixed oracle with
+/// the given price and unit share values, build an account holding the given balances by fixture and
+/// run the REAL lending_account_pulse_health; report the Initial and Maintenance components it cached.
+fn health_probe(e: &mut Env, pos: &[(usize, bool, I80F48, I80F48)]) -> String {
+    let snapshot = e.w.accounts.clone();
+    let now = e.w.unix_timestamp;
+    for &(i, liab, shares, price) in pos {
+        e.w.update::<Bank>(&e.banks[i].clone(), |b| {
+            b.config.oracle_setup = OracleSetup::Fixed;
+            b.config.oracle_keys[0] = Pubkey::default();
+            b.config.fixed_price = price.into();
+            b.asset_share_value = I80F48::ONE.into();
+            b.liability_share_value = I80F48::ONE.into();
+            b.total_asset_shares = (if liab { I80F48::ZERO } else { shares }).into();
+            b.total_liability_shares = (if liab { shares } else { I80F48::ZERO }).into();
+            b.last_update = now;
+        });
+    }
+    let acct = mk_marginfi_account(&mut e.w, e.group, e.admin);
+    let mut sorted: Vec<(Pubkey, bool, I80F48, u8)> = pos
+        .iter()
+        .map(|&(i, liab, shares, _)| (e.banks[i], liab, shares, e.w.get::<Bank>(&e.banks[i]).unwrap().config.asset_tag))
+        .collect();
+    sorted.sort_by(|a, b| b.0.cmp(&a.0));
+    e.w.update::<MarginfiAccount>(&acct, |a| {
+        for (j, (bank, liab, shares, tag)) in sorted.iter().enumerate() {
+            let mut bal = Balance::empty_deactivated();
+            bal.active = 1;
+            bal.bank_pk = *bank;
+            bal.bank_asset_tag = *tag;
+            if *liab {
+                bal.liability_shares = (*shares).into();
+            } else {
+                bal.asset_shares = (*shares).into();
+            }
+            bal.last_update = now as u64;
+            a.lending_account.balances[j] = bal;
+        }
+    });
+    let rem = remaining_for(&e.w, &acct, &[]);
+    let ix = ixs::lending_account_pulse_health(acct, rem);
+    let r = e.exec(ix, &[]);
+    let s = match r {
+        Ok(()) => {
+            let a: MarginfiAccount = e.w.get::<MarginfiAccount>(&acct).unwrap();
+            let h = a.health_cache;
+            format!("H {} {} {} {}", fxb(h.asset_value), fxb(h.liability_value), fxb(h.asset_value_maint), fxb(h.liability_value_maint))
+        }
+        Err(x) => err_s(&x),
+    };
+    e.w.accounts = snapshot;
+    s
 }
 
 pub fn run(line: &str) -> String {
@@ -436,6 +492,34 @@ pub fn run(line: &str) -> String {
                         Ok(()) => format!("OK {}", e.dump(i)),
                         Err(x) => err_s(&x),
                     }
+                }
+            }
+            "MIG" => {
+                let i = t.usize();
+                if !e.bank_exists(i) {
+                    "ABSENT".to_string()
+                } else {
+                    let ix = ixs::build(acc::MigrateCurve { bank: e.banks[i] }, ixd::MigrateCurve {}, vec![]);
+                    match e.exec(ix, &[]) {
+                        Ok(()) => format!("OK {}", e.dump(i)),
+                        Err(x) => err_s(&x),
+                    }
+                }
+            }
+            "HP" => {
+                let k = t.usize();
+                let mut pos: Vec<(usize, bool, I80F48, I80F48)> = Vec::new();
+                for _ in 0..k {
+                    let i = t.usize();
+                    let liab = t.bool();
+                    let shares = t.fx();
+                    let price = t.fx();
+                    pos.push((i, liab, shares, price));
+                }
+                if pos.iter().any(|p| !e.bank_exists(p.0)) {
+                    "ABSENT".to_string()
+                } else {
+                    health_probe(&mut e, &pos)
                 }
             }
             x => panic!("unknown step {}", x),
